@@ -363,7 +363,17 @@ func c01Run(input string) string {
 		if derr != nil {
 			donor = nil
 		}
-		m, applied, changed := envMutate(env, donor, mut, parties)
+		var (
+			m                []byte
+			applied, changed bool
+		)
+		if mut == "forge:skid" {
+			// the outsider builds a fresh ECDH-ES (anoncrypt) JWE for recipient 1 and names the SENDER's key in `skid`
+			m, applied = envForgeSkid(c, parties)
+			changed = true
+		} else {
+			m, applied, changed = envMutate(env, donor, mut, parties)
+		}
 		if !applied {
 			outs = append(outs, "mut=na")
 		} else {
@@ -384,6 +394,35 @@ func c01Run(input string) string {
 		outs = append(outs, s)
 	}
 	return strings.Join(outs, " ")
+}
+
+// envForgeSkid: no private key of the sender is involved.
+func envForgeSkid(c envCase, parties []*envParty) ([]byte, bool) {
+	if c.kind != "aj" && c.kind != "nj" {
+		return nil, false
+	}
+	rec := *parties[1].pubKey
+	rec.KID = parties[1].didKey
+	skid := parties[0].didKey
+	if c.kidstyle == "dd" {
+		rec.KID = parties[1].kaID
+		skid = parties[0].kaID
+	}
+	encAlg := envEncAlgs[c.enc]
+	enc, err := jose.NewJWEEncrypt(encAlg, "application/didcomm-encrypted+json", "", skid, nil,
+		[]*cryptoapi.PublicKey{&rec}, envCrypto)
+	if err != nil {
+		return nil, false
+	}
+	jwe, err := enc.Encrypt([]byte(`{"forged":"by the outsider"}`))
+	if err != nil {
+		return nil, false
+	}
+	s, err := jwe.CompactSerialize(json.Marshal)
+	if err != nil {
+		return nil, false
+	}
+	return []byte(s), true
 }
 
 // ---- mutations -------------------------------------------------------------------------------------------------------
@@ -745,7 +784,7 @@ func c02Gen(r *Rng, tier string) []string {
 		case c < 18:
 			mut = fmt.Sprintf("duprec:%d", r.N(3))
 		case c < 19:
-			mut = []string{"swaprec", "reser"}[r.N(2)]
+			mut = []string{"swaprec", "reser", "forge:skid", "forge:skid"}[r.N(4)]
 		default:
 			mut = "unprot:" + r.Pick([]string{"skid", "kid", "alg", "apu"}) + ":@other"
 		}
